@@ -23,7 +23,7 @@
        only finitely often, which holds with probability 1 for Go's uniform select). *)
 From Coq Require Import List Bool String Arith ZArith.
 From Bluge Require Import Gen.ParamsConc Conc.Lockset Conc.LocksetProofs Conc.Roles Conc.Discipline
-  Conc.Skeleton Conc.SkeletonProofs.
+  Conc.DisciplineExample Conc.Skeleton Conc.SkeletonProofs.
 Import ListNotations.
 
 (* (a) the generic thread system: well-formed claims + discipline + publication safety
@@ -94,6 +94,19 @@ Theorem writer_fields_race_free_partial :
     forall x, ~ race wtid wlock wcell P g x.
 Proof. exact writer_fields_race_free_all. Qed.
 Print Assumptions writer_fields_race_free_partial.
+
+(* the hypotheses of writer_fields_race_free_partial are satisfiable on a non-trivial program:
+   the opener publishes Writer.root and starts the introducer and a caller; the introducer
+   writes the root under rootLock (the row of Writer.replaceRoot), the caller reads it under
+   the read lock (the row of Writer.currentSnapshot) *)
+Example race_free_hypotheses_satisfiable :
+  wf_program wtid wlock wcell ex_prog /\
+  publication_safe wtid wlock wcell wtid_eq_dec wlock_eq_dec wcell_eq_dec ex_prog /\
+  table_covers ex_prog /\
+  (exists s s', next ex_prog Introducer s (AWrite x_root) s') /\
+  (exists s s', next ex_prog (Caller 0) s (ARead x_root) s').
+Proof. exact instance_satisfies_hypotheses. Qed.
+Print Assumptions race_free_hypotheses_satisfiable.
 
 (* (c) the blocking points of the skeleton are exactly the blocking rows of the generated
    select-site table, with the same closeCh alternatives; channel capacities, the calls of
